@@ -27,8 +27,9 @@ class KaniRun:
         os.makedirs(self.target, exist_ok=True)
         cmd = ["cargo", "kani", "--target-dir", self.target, "--output-format", "terse", "-j", str(jobs)]
         cmd += list(extra_args)
+        cmd += ["--exact"]
         for h in self.harnesses:
-            cmd += ["--harness", h]
+            cmd += ["--harness", "proofs::" + h]
         self.cmd = cmd
         self.log = tempfile.NamedTemporaryFile("w+", suffix=".kani.log", delete=False, dir=CACHE)
         env = dict(os.environ, CARGO_NET_OFFLINE="true")
@@ -93,7 +94,7 @@ def playback(crate, harness, workdir):
     shutil.copytree(src, dst, ignore=shutil.ignore_patterns("target"))
     env = dict(os.environ, CARGO_NET_OFFLINE="true")
     tgt = os.path.join(CACHE, "kani-target-" + crate)
-    p = subprocess.run(["cargo", "kani", "--target-dir", tgt, "--harness", harness, "-Z", "concrete-playback",
+    p = subprocess.run(["cargo", "kani", "--target-dir", tgt, "--exact", "--harness", "proofs::" + harness, "-Z", "concrete-playback",
                         "--concrete-playback=inplace", "--output-format", "terse"], cwd=dst, env=env, capture_output=True, text=True, timeout=3600)
     log = p.stdout[-3000:] + p.stderr[-2000:]
     q = subprocess.run(["cargo", "kani", "playback", "-Z", "concrete-playback"], cwd=dst, env=env, capture_output=True, text=True, timeout=3600)
